@@ -853,6 +853,11 @@ def branch(p, site=None):
         C.decisions.append(True)
         d = True
         C.stats["forks"] += 1
+        if DEBUG:
+            import traceback
+
+            fr = [f for f in traceback.extract_stack(limit=14) if "/pyvc/" not in f.filename]
+            print("fork at", " <- ".join("%s:%d" % (f.filename.split("/")[-1], f.lineno) for f in reversed(fr[-3:])))
     C.pos += 1
     assume(p if d else pnot(p))
     return d
